@@ -64,6 +64,8 @@ type counters struct {
 	ConfProposed, ConfCommitted, JointCommitted           int64
 	CommitQuorumChecks, JointCommitChecks                 int64
 	OneAtATimeChecks, BatchProposals                      int64
+	SteppedBeforeAdvance, ReEmitted, EarlySnapReports     int64
+	SnapBeforeAdvance                                     int64
 	Transfers                                             int64
 	NTLeaderChange, NTCrashUnacked, NTConfUnderLoss       bool
 }
@@ -121,6 +123,9 @@ type sim struct {
 	cfg   Cfg
 	nodes []*node
 	send  func(m pb.Message) // engine-specific network
+	// beforeAdvance, if set, runs between the application's handling of a Ready and its Advance (messages
+	// may be stepped into a node there: raft.Node's loop accepts them at that point); reset after use
+	beforeAdvance func(n *node)
 	// appInFlight reports whether an append carrying entries of a term < t is in flight (NT rule).
 	appInFlight func(t uint64) bool
 
@@ -816,11 +821,30 @@ func (s *sim) processReady(n *node, stopAt int) bool {
 		last, _ := n.ms.LastIndex()
 		if first <= last {
 			s.ct.Truncations++
-			if first <= n.hs.Commit {
-				s.failf("node %d: rewrites its persisted log from index %d, but its persisted commit index is %d", n.id, first, n.hs.Commit)
+			// entries at or below the persisted commit index / the applied index may be handed out again
+			// (a message stepped in between Ready and Advance can make the library re-emit its unstable
+			// entries from their start), but never with another content
+			lim := n.hs.Commit
+			if n.applied > lim {
+				lim = n.applied
 			}
-			if first <= n.applied {
-				s.failf("node %d: rewrites its persisted log from index %d, but it has applied up to %d", n.id, first, n.applied)
+			if first <= lim {
+				p := n.plog()
+				for i := range rd.Entries {
+					e := &rd.Entries[i]
+					if e.Index > lim || e.Index > p.last {
+						break
+					}
+					if e.Index < p.first {
+						continue
+					}
+					if old := &p.ents[e.Index-p.first]; !sameEntry(old, e) {
+						s.failf("node %d: rewrites its persisted log at index %d (term %d -> %d), but its persisted commit index is %d and it has applied up to %d",
+							n.id, e.Index, old.Term, e.Term, n.hs.Commit, n.applied)
+						break
+					}
+				}
+				s.ct.ReEmitted++
 			}
 		}
 		if first > last+1 {
@@ -947,6 +971,13 @@ func (s *sim) processReady(n *node, stopAt int) bool {
 					s.ct.JointCommitted++
 				}
 			}
+		}
+	}
+	if f := s.beforeAdvance; f != nil {
+		s.beforeAdvance = nil
+		f(n)
+		if s.fail != "" || n.rn == nil {
+			return true
 		}
 	}
 	n.rn.Advance(rd)
